@@ -270,6 +270,63 @@ def check_templates(case, ctx):
             ctx.nontrivial([gt, w, 'tmpl'], sample={'grammar': gt, 'written_out': ft, 'text': w})
 
 
+# ------------------------------------------------------------------ terminals built from other terminals, extended/overridden after import
+MOD_T = 'num: NUMBER\nNUMBER: DIGIT+\nDIGIT: "1" | "2"\nWORD: LETTER (LETTER | DIGIT)*\nLETTER: "a" | "b"\nPAIR: LETTER DIGIT\n'
+
+
+@st.composite
+def terminal_cases(draw):
+    base = draw(st.sampled_from(['DIGIT', 'LETTER']))
+    op = draw(st.sampled_from(['extend', 'extend', 'override', None]))
+    newc = draw(st.sampled_from(['f', 'g', '3']))
+    composites = draw(st.lists(st.sampled_from(['NUMBER', 'WORD', 'PAIR']), min_size=1, max_size=3, unique=True))
+    use_rule = draw(st.booleans())
+    texts = [''.join(draw(st.lists(st.sampled_from(['1', '2', 'a', 'b', newc, ' ', '12', 'a1', 'b' + newc]), max_size=6))) for _ in range(6)]
+    return {'base': base, 'op': op, 'newc': newc, 'composites': composites, 'use_rule': use_rule, 'texts': texts}
+
+
+@blame_lark
+def check_terminals(case, ctx):
+    base, op, newc = case['base'], case['op'], case['newc']
+    comps = sorted(case['composites'])
+    imports = sorted(set(comps + ['DIGIT', 'LETTER'] + (['NUMBER'] if case['use_rule'] else [])))
+    items = comps + (['num'] if case['use_rule'] else [])
+    main = 'start: (%s)+\n%%import m (%s)\n%%ignore " "\n' % (' | '.join(items), ', '.join(imports + (['num'] if case['use_rule'] else [])))
+    defs = {'DIGIT': ['"1"', '"2"'], 'LETTER': ['"a"', '"b"']}
+    if op == 'extend':
+        main += '%%extend %s: "%s"\n' % (base, newc); defs[base] = defs[base] + ['"%s"' % newc]
+    elif op == 'override':
+        main += '%%override %s: "%s"\n' % (base, newc); defs[base] = ['"%s"' % newc]
+    flat = 'start: (%s)+\n' % ' | '.join(items)
+    if case['use_rule']: flat += 'num: NUMBER\n'
+    body = {'NUMBER': 'DIGIT+', 'WORD': 'LETTER (LETTER | DIGIT)*', 'PAIR': 'LETTER DIGIT'}
+    need = set(comps) | ({'NUMBER'} if case['use_rule'] else set())
+    for c in sorted(need): flat += '%s: %s\n' % (c, body[c])
+    flat += 'DIGIT: %s\nLETTER: %s\n%%ignore " "\n' % (' | '.join(defs['DIGIT']), ' | '.join(defs['LETTER']))
+    d = scratch()
+    with open(os.path.join(d, 'm.lark'), 'w') as f: f.write(MOD_T)
+    for parser, lexer in (('lalr', 'contextual'), ('lalr', 'basic'), ('earley', 'dynamic')):
+        try:
+            pf = Lark(flat, parser=parser, lexer=lexer)
+        except GrammarError:
+            ctx.discard('flat grammar rejected'); return
+        try:
+            pm = Lark(main, parser=parser, lexer=lexer, import_paths=[d])
+        except GrammarError as e:
+            raise Violation('modular grammar raises GrammarError although the hand-inlined grammar builds', main=main, module=MOD_T, flat=flat, error=str(e)[:300])
+        for w in case['texts']:
+            res = []
+            for p in (pf, pm):
+                try: res.append(('ok', norm(p.parse(w), set())))
+                except UnexpectedInput as e: res.append(('err', type(e).__name__))
+            if res[0] != res[1]:
+                raise Violation('imported terminal built from an extended/overridden terminal differs from the hand-inlined grammar', main=main, module=MOD_T,
+                                flat=flat, text=w, engine=[parser, lexer], flat_result=str(res[0])[:300], modular_result=str(res[1])[:300])
+            ctx.label('terminals-agree:' + res[0][0])
+            if res[0][0] == 'ok' and op and newc in w:
+                ctx.nontrivial([main, w, parser, lexer], sample={'main': main, 'module': MOD_T, 'flat': flat, 'text': w})
+
+
 O = gramgen.Opts(terms='tok', max_rules=5, shaping=True, templates=False, ignore=True, acyclic=True, distinct_anon=True, unique_aliases=True)
 O_T = gramgen.Opts(terms='tok', max_rules=4, shaping=True, templates=True, ignore=True, acyclic=True, distinct_anon=True, unique_aliases=True)
 
@@ -291,4 +348,5 @@ def template_cases(draw):
 def phases(tier):
     k = 12 if tier == 'thorough' else 1
     return [Phase('split-into-modules', 'hypothesis', strategy=split_cases(), max_examples=12000 * k),
-            Phase('templates-written-out', 'hypothesis', strategy=template_cases(), max_examples=12000 * k, check=check_templates)]
+            Phase('templates-written-out', 'hypothesis', strategy=template_cases(), max_examples=12000 * k, check=check_templates),
+            Phase('composite-terminals-extend-override', 'hypothesis', strategy=terminal_cases(), max_examples=3000 * k, check=check_terminals)]
